@@ -28,10 +28,11 @@ func (s *c19Session) RemoteAddr() string { return s.addr }
 
 var c19Policies = []string{"RandomLoadBalance", "XID", "RoundRobinLoadBalance", "ConsistentHashLoadBalance", "LeastActiveLoadBalance", "no-such-policy"}
 
-var c19Addrs = []string{"10.0.0.1:8091", "10.0.0.2:8091", "10.0.0.1:8091"}
+// (the second address is a textual prefix of the first: 809 / 8091)
+var c19Addrs = []string{"10.0.0.1:8091", "10.0.0.1:809", "10.0.0.1:8091"}
 
 // xid shapes: names the address of session 0 / of session 1 / of nobody; not of the ip:port:id form
-var c19Xids = []string{"10.0.0.1:8091:77", "10.0.0.2:8091:77", "10.9.9.9:8091:77", "plain-xid", "a:b", "1:2:3:4"}
+var c19Xids = []string{"10.0.0.1:8091:77", "10.0.0.1:809:77", "10.9.9.9:8091:77", "plain-xid", "a:b", "1:2:3:4"}
 
 type c19World struct {
 	sessions *sync.Map
